@@ -1010,7 +1010,7 @@ func VerifC06StartJoinDAG()    { c05Mode = 6; c05Check(c05StartJoin(), true, 0, 
 // node with a control-only dependency complete in every order the scheduler allows (one deviation from the
 // deterministic schedule): the resumed run finishes with the uninterrupted result, nothing lost or run twice.
 //
-//	START -> A, Z, B ; A2 <- A, Z (join) ; X depends on Z (control only, data from START) ; END <- A2, B, X
+//	START -> A, Z, B, W ; A2 <- A, Z (join) ; X depends on Z, Y on W (control only, data from START) ; END <- A2, B, X, Y
 func c05EagerMix() {
 	ctx := context.Background()
 	vcfg("delaybound", 1+vtier())
@@ -1047,7 +1047,10 @@ func c05EagerMix() {
 		})).AddInput(START)
 		wf.AddLambdaNode("A2", mk("A2")).AddInput("A", ToField("a")).AddInput("Z", ToField("z"))
 		wf.AddLambdaNode("X", mk("X")).AddInputWithOptions(START, nil, WithNoDirectDependency()).AddDependency("Z")
-		wf.End().AddInput("A2", ToField("a2")).AddInput("B", ToField("b")).AddInput("X", ToField("x"))
+		// W has no data successor at all: Y only waits for it
+		wf.AddLambdaNode("W", mk("W")).AddInput(START)
+		wf.AddLambdaNode("Y", mk("Y")).AddInputWithOptions(START, nil, WithNoDirectDependency()).AddDependency("W")
+		wf.End().AddInput("A2", ToField("a2")).AddInput("B", ToField("b")).AddInput("X", ToField("x")).AddInput("Y", ToField("y"))
 		var opts []GraphCompileOption
 		if interrupts {
 			opts = append(opts, WithCheckPointStore(store))
@@ -1087,7 +1090,7 @@ func c05EagerMix() {
 	vquiesce()
 	a5(finished, "eager mix: the run completes after resuming")
 	a5(c02DeepEq(out, wantOut), "eager mix: same output as the uninterrupted run")
-	for _, n := range []string{"A", "Z", "B", "A2", "X"} {
+	for _, n := range []string{"A", "Z", "B", "A2", "X", "W", "Y"} {
 		a, b := logI.of(n), logU.of(n)
 		a5(len(a) == len(b), "eager mix: node "+n+" completes as often as in the uninterrupted run")
 		for i := range a {
@@ -1100,3 +1103,79 @@ func c05EagerMix() {
 
 func VerifC05EagerMix() { c05EagerMix() }
 func VerifC06EagerMix() { c05Mode = 6; c05EagerMix() }
+
+// the minimal case of the above: the only node still running when B asks for its rerun has no data successor at all
+// (Y merely waits for it): its completion must still be remembered by the checkpoint
+func c05RerunControlOnly() {
+	ctx := context.Background()
+	vcfg("delaybound", 1)
+	vcfg("selectfirst", 1)
+	in0 := map[string]any{"in": vsymInt("x")}
+	build := func(log *vLog, interrupts bool, store CheckPointStore, attempts *int) (Runnable[map[string]any, map[string]any], error) {
+		mk := func(k string, yields int) *Lambda {
+			return InvokableLambda(func(ctx context.Context, in map[string]any) (map[string]any, error) {
+				for i := 0; i < yields; i++ {
+					vyield()
+				}
+				x := vFoldDeep(in)
+				log.add(k, x)
+				return map[string]any{k: vsymUF("f_"+k, x)}, nil
+			})
+		}
+		wf := NewWorkflow[map[string]any, map[string]any]()
+		wf.AddLambdaNode("B", InvokableLambda(func(ctx context.Context, in map[string]any) (map[string]any, error) {
+			vMu.Lock()
+			*attempts++
+			first := *attempts == 1
+			vMu.Unlock()
+			if interrupts && first {
+				return nil, InterruptAndRerun
+			}
+			x := vFoldDeep(in0)
+			log.add("B", x)
+			return map[string]any{"B": vsymUF("f_B", x)}, nil
+		})).AddInput(START)
+		wf.AddLambdaNode("W", mk("W", 2)).AddInput(START)
+		wf.AddLambdaNode("Y", mk("Y", 0)).AddInputWithOptions(START, nil, WithNoDirectDependency()).AddDependency("W")
+		wf.End().AddInput("B", ToField("b")).AddInput("Y", ToField("y"))
+		var opts []GraphCompileOption
+		if interrupts {
+			opts = append(opts, WithCheckPointStore(store))
+		}
+		return wf.Compile(ctx, opts...)
+	}
+	logI, logU := &vLog{}, &vLog{}
+	store := &vStore{m: map[string][]byte{}}
+	attI, attU := 0, 0
+	ru, err := build(logU, false, nil, &attU)
+	vassert(err == nil, "twin compiles")
+	wantOut, wantErr := ru.Invoke(ctx, in0)
+	vassert(wantErr == nil, "uninterrupted run succeeds")
+	ri, err := build(logI, true, store, &attI)
+	vassert(err == nil, "workflow compiles")
+	var out map[string]any
+	finished := false
+	for call := 0; call < 4 && !finished; call++ {
+		var rerr error
+		out, rerr = ri.Invoke(ctx, in0, WithCheckPointID("ctl"))
+		if rerr == nil {
+			finished = true
+			break
+		}
+		_, ok := ExtractInterruptInfo(rerr)
+		a5(ok, "rerun + control-only: the (resumed) run does not fail with a non-interrupt error")
+		a6(ok, "rerun + control-only: only interrupt errors")
+		if !ok {
+			return
+		}
+	}
+	vquiesce()
+	a5(finished, "rerun + control-only: the run completes after resuming")
+	a5(c02DeepEq(out, wantOut), "rerun + control-only: same output as the uninterrupted run")
+	for _, n := range []string{"B", "W", "Y"} {
+		a5(len(logI.of(n)) == len(logU.of(n)), "rerun + control-only: node "+n+" completes as often as in the uninterrupted run")
+	}
+}
+
+func VerifC05RerunControlOnly() { c05RerunControlOnly() }
+func VerifC06RerunControlOnly() { c05Mode = 6; c05RerunControlOnly() }
